@@ -29,7 +29,7 @@ where
         return;
     };
     let workers: usize = std::env::var("VERIF_FUZZ_WORKERS").ok().and_then(|s| s.parse().ok()).unwrap_or(16);
-    let runs: u64 = std::env::var("VERIF_FUZZ_RUNS").ok().and_then(|s| s.parse().ok()).unwrap_or(ctx.tier.pick(20_000u64, 400_000u64));
+    let runs: u64 = std::env::var("VERIF_FUZZ_RUNS").ok().and_then(|s| s.parse().ok()).unwrap_or(ctx.tier.pick(20_000u64, 150_000u64));
     let work = format!("{}/harness/target/fuzz-work/{}", verif_dir(), prop);
     let _ = std::fs::remove_dir_all(&work);
     let seeds = format!("{work}/seeds");
